@@ -205,7 +205,8 @@ type goBadgerDBIt struct {
 	itBase
 	txn *badger.Txn
 	err error
-	// fresh: not positioned yet; as with the other backends the first Next goes to the first entry
+	// fresh: not positioned yet; as with the other backends the first Next of a forward iterator
+	// goes to the first entry
 	fresh bool
 	// done: positioned before the first entry (reverse Seek below every key)
 	done bool
@@ -214,6 +215,12 @@ type goBadgerDBIt struct {
 // Next next
 func (it *goBadgerDBIt) Next() bool {
 	if it.fresh {
+		if it.reverse {
+			// as with the other backends, stepping back from the start of a fresh reverse iterator
+			// finds nothing
+			it.fresh, it.done = false, true
+			return false
+		}
 		return it.Rewind()
 	}
 	if it.done || !it.Iterator.Valid() {
